@@ -77,6 +77,10 @@ def chan : Drv where
       (match stepG s (.recv (y == "a")) with
        | none => (some s, "disabled")
        | some s' => (some s', s!"ok {(q.head?.map msgKind).getD "?"} {if s'.agreed then "agree" else "DISAGREE"}"))
+    | ["disconnect"], some s => ret
+      (match stepG s .disconnect with | none => (some s, "disabled") | some s' => (some s', "ok"))
+    | ["reest", y], some s => ret
+      (match stepG s (.reest (y == "a")) with | none => (some s, "disabled") | some s' => (some s', "ok"))
     | ["dump", x], some s => ret <|
       let n := if x == "a" then s.a else s.b
       (some s, s!"v={n.valueToSelf} in=[{",".intercalate (n.inb.map (fun h => s!"{h.id}:{h.amt}:{showSt h.st}"))}] out=[{",".intercalate (n.outb.map (fun h => s!"{h.id}:{h.amt}:{showOSt h.st}"))}] awaiting={n.awaitingRaa}")
